@@ -609,3 +609,23 @@ def ignorable_keywords(draw):
                           max_size=2, unique_by=lambda t: t.split('=')[0]))
     k = draw(st.integers(0, len(items)))
     return [items[:k], items[k:]]
+
+
+# --------------------------------------------------------------------------
+# data cards that have nothing to do with geometry, materials or importances
+# --------------------------------------------------------------------------
+
+UNRELATED_DATA_CARDS = ['mode n p', 'nps 1000', 'print', 'sdef pos=0 0 0 erg=14',
+                        'f4:n 1', 'e4 1 2 3', 'mt1 lwtr.10t', 'mx1:n j 8017',
+                        'kcode 1000 1.0 10 50', 'ksrc 0 0 0', 'phys:n 20 0',
+                        'cut:n j 0', 'tmp1 2.53e-8 2.53e-8', 'vol 1 1',
+                        'totnu', 'mpn1 0 8016', 'm0 nlib=70c', 'prdmp j j 1',
+                        'thtme 0', 'ctme 10']
+
+
+@st.composite
+def unrelated_data_cards(draw):
+    if draw(st.integers(0, 2)) != 0:
+        return []
+    return draw(st.lists(st.sampled_from(UNRELATED_DATA_CARDS), min_size=1,
+                         max_size=4, unique_by=lambda t: t.split()[0]))
